@@ -362,14 +362,20 @@ def corrupt_selftest(scratch, spec, trace_file, prop, skip_scns=()):
     return {"done": True, "corrupted_line": idx + 1, "rejected_by": clauses_for(prop, hit[0])}
 
 
-def run_check(prop, tier, seed):
-    from registry import REGISTRY
-    if prop not in REGISTRY:
-        raise Machinery("no check registered for " + prop)
-    spec = REGISTRY[prop]
-    t0 = time.time()
+def pipelines_of(spec):
+    """a check = its main pipeline + optional extra pipelines (`also`): other module/generator/driver/judge
+    combinations whose recordings are judged for the same property"""
+    out = [spec]
+    for extra in spec.get("also", []):
+        m = dict(spec)
+        m.pop("also", None)
+        m.update(extra)
+        out.append(m)
+    return out
+
+
+def run_pipeline(prop, spec, tier, seed, findings, label):
     scratch = prepare_scratch(spec["modules"])
-    findings = load_findings()
     try:
         # 1. design check(s)
         dstats = []
@@ -468,71 +474,20 @@ def run_check(prop, tier, seed):
                     known[fid] = known.get(fid, 0) + len(items)
                 else:
                     violations.append({"clause": clause, "count": len(items), "scenario": confirmed[0],
-                                       "event": confirmed[1]})
+                                       "event": confirmed[1], "pipe": label})
 
         if not violations and not unreproduced:
             selftest = corrupt_selftest(scratch, spec, trace_file, prop, skip_scns=set(b["scn"] for b in bad))
 
-        # 6. evidence
         nontriv = spec.get("nontrivial", lambda s: len(s.get("ops", [])) > 0)
         canon = set()
         for s in scs:
             if nontriv(s):
                 canon.add(json.dumps({"par": s.get("par"), "ops": s["ops"]}, sort_keys=True))
-        level = spec["level"]
         samples = [{"par": s.get("par"), "ops": s["ops"][:12]} for s in scs[:: max(1, len(scs) // 3)][:3]]
-        cov = {
-            "evaluations": judged,
-            "distinct_nontrivial": len(canon),
-            "rule": spec["rule"],
-            "samples": samples,
-            "traces_validated_against_impl": len(scs),
-            "events_judged": judged,
-            "states": sum(d.get("states", 0) for d in dstats),
-            "transitions": sum(d.get("transitions", 0) for d in dstats),
-            "design_checks": dstats,
-            "generators": gstats,
-            "judge": {"spec": spec["judge"]["spec"], "wall_s": jst["wall_s"]},
-            "binding_selftest": selftest,
-            "spec_drift": notes[:20],
-            "known_findings_hit": known,
-            "unreproduced": unreproduced[:5],
-            "exhaustive": bool(spec.get("exhaustive", {}).get(tier, False)),
-            "race_detector": race,
-        }
-        if not dstats:
-            cov.pop("states")
-            cov.pop("transitions")
-        ev = {
-            "property_id": prop, "tier": tier, "seed": seed, "level": level, "coverage": cov,
-            "assumptions": spec.get("assumptions", []), "wall_s": round(time.time() - t0, 2),
-            "violations": len(violations),
-        }
-        os.makedirs(os.path.join(ROOT, "evidence"), exist_ok=True)
-        with open(os.path.join(ROOT, "evidence", prop + ".json"), "w") as f:
-            json.dump(ev, f, indent=1, sort_keys=True)
-
-        for n in notes[:10]:
-            log("NOTE: spec_drift %s" % json.dumps(n)[:300])
-        for fid, cnt in sorted(known.items()):
-            fd = [x for x in findings if x["id"] == fid][0]
-            log("KNOWN-FINDING: property=%s %s (%d failing events; %s)" % (prop, fd["what"], cnt, fid))
-        if violations:
-            os.makedirs(os.path.join(ROOT, "replays"), exist_ok=True)
-            for v in violations:
-                rp = os.path.join(ROOT, "replays", "%s-%s-seed%d-scn%d.json" % (prop, re.sub(r"\W+", "_", v["clause"])[:40], seed,
-                                                                              v["scenario"].get("scn", 0)))
-                with open(rp, "w") as f:
-                    json.dump({"property": prop, "clause": v["clause"], "scenario": v["scenario"], "event": v["event"],
-                               "seed": seed, "tier": tier}, f, indent=1, sort_keys=True)
-                log("failing clause %s (%d events), e.g. %s" % (v["clause"], v["count"], json.dumps(v["event"])[:400]))
-                log("VIOLATION property=%s replay=%s" % (prop, rp))
-            return 1
-        if unreproduced:
-            log("UNREPRODUCED: %s" % json.dumps(unreproduced[:3])[:600])
-            return 2
-        log("OK property=%s tier=%s seed=%d scenarios=%d events=%d wall=%.1fs" % (prop, tier, seed, len(scs), judged, time.time() - t0))
-        return 0
+        return dict(dstats=dstats, gstats=gstats, nscs=len(scs), judged=judged, jst=jst, notes=notes, selftest=selftest,
+                    violations=violations, known=known, unreproduced=unreproduced, race=race, canon=canon, samples=samples,
+                    judge=spec["judge"]["spec"], driver=spec["driver"])
     finally:
         if os.environ.get("VERIF_KEEP"):
             log("scratch kept: " + scratch)
@@ -540,12 +495,93 @@ def run_check(prop, tier, seed):
             shutil.rmtree(scratch, ignore_errors=True)
 
 
+def run_check(prop, tier, seed):
+    from registry import REGISTRY
+    if prop not in REGISTRY:
+        raise Machinery("no check registered for " + prop)
+    spec = REGISTRY[prop]
+    t0 = time.time()
+    findings = load_findings()
+    results = []
+    for i, pspec in enumerate(pipelines_of(spec)):
+        if i > 0:
+            log("-- additional pipeline %d: driver %s, judge %s" % (i, pspec["driver"], pspec["judge"]["spec"]))
+        results.append(run_pipeline(prop, pspec, tier, seed, findings, i))
+
+    violations = [v for r in results for v in r["violations"]]
+    unreproduced = [u for r in results for u in r["unreproduced"]]
+    known = {}
+    for r in results:
+        for k, v in r["known"].items():
+            known[k] = known.get(k, 0) + v
+    notes = [n for r in results for n in r["notes"]]
+    dstats = [d for r in results for d in r["dstats"]]
+    canon = set()
+    for i, r in enumerate(results):
+        canon |= set("%d:%s" % (i, c) for c in r["canon"])
+    judged = sum(r["judged"] for r in results)
+    nscs = sum(r["nscs"] for r in results)
+    cov = {
+        "evaluations": judged,
+        "distinct_nontrivial": len(canon),
+        "rule": spec["rule"],
+        "samples": [s for r in results for s in r["samples"]][:6],
+        "traces_validated_against_impl": nscs,
+        "events_judged": judged,
+        "states": sum(d.get("states", 0) for d in dstats),
+        "transitions": sum(d.get("transitions", 0) for d in dstats),
+        "design_checks": dstats,
+        "generators": [g for r in results for g in r["gstats"]],
+        "judge": [{"spec": r["judge"], "driver": r["driver"], "wall_s": r["jst"]["wall_s"], "scenarios": r["nscs"],
+                   "events": r["judged"]} for r in results],
+        "binding_selftest": [r["selftest"] for r in results],
+        "spec_drift": notes[:20],
+        "known_findings_hit": known,
+        "unreproduced": unreproduced[:5],
+        "exhaustive": bool(spec.get("exhaustive", {}).get(tier, False)),
+        "race_detector": any(r["race"] for r in results),
+    }
+    if not dstats:
+        cov.pop("states")
+        cov.pop("transitions")
+    ev = {
+        "property_id": prop, "tier": tier, "seed": seed, "level": spec["level"], "coverage": cov,
+        "assumptions": spec.get("assumptions", []), "wall_s": round(time.time() - t0, 2),
+        "violations": len(violations),
+    }
+    os.makedirs(os.path.join(ROOT, "evidence"), exist_ok=True)
+    with open(os.path.join(ROOT, "evidence", prop + ".json"), "w") as f:
+        json.dump(ev, f, indent=1, sort_keys=True)
+
+    for n in notes[:10]:
+        log("NOTE: spec_drift %s" % json.dumps(n)[:300])
+    for fid, cnt in sorted(known.items()):
+        fd = [x for x in findings if x["id"] == fid][0]
+        log("KNOWN-FINDING: property=%s %s (%d failing events; %s)" % (prop, fd["what"], cnt, fid))
+    if violations:
+        os.makedirs(os.path.join(ROOT, "replays"), exist_ok=True)
+        for v in violations:
+            rp = os.path.join(ROOT, "replays", "%s-%s-seed%d-scn%d.json" % (prop, re.sub(r"\W+", "_", v["clause"])[:40], seed,
+                                                                          v["scenario"].get("scn", 0)))
+            with open(rp, "w") as f:
+                json.dump({"property": prop, "clause": v["clause"], "scenario": v["scenario"], "event": v["event"],
+                           "seed": seed, "tier": tier, "pipe": v["pipe"]}, f, indent=1, sort_keys=True)
+            log("failing clause %s (%d events), e.g. %s" % (v["clause"], v["count"], json.dumps(v["event"])[:400]))
+            log("VIOLATION property=%s replay=%s" % (prop, rp))
+        return 1
+    if unreproduced:
+        log("UNREPRODUCED: %s" % json.dumps(unreproduced[:3])[:600])
+        return 2
+    log("OK property=%s tier=%s seed=%d scenarios=%d events=%d wall=%.1fs" % (prop, tier, seed, nscs, judged, time.time() - t0))
+    return 0
+
+
 def replay(path):
     from registry import REGISTRY
     with open(path) as f:
         r = json.load(f)
     prop = r["property"]
-    spec = REGISTRY[prop]
+    spec = pipelines_of(REGISTRY[prop])[r.get("pipe", 0)]
     scratch = prepare_scratch(spec["modules"])
     try:
         bad, _, _, _, trace_file, _ = exec_and_judge(scratch, spec, [r["scenario"]], r.get("seed", 1), "replay",
